@@ -443,6 +443,9 @@ def pte_pattern(draw, base=None):
             digits[0] = 'E'
     else:
         digits = list(base)
+        if digits[3] != '*' and draw(st.integers(0, 3)) == 0:
+            # the counterpart of the base pattern with the other value of the reported flag
+            digits[3] = '%X' % (int(digits[3], 16) ^ 0x4)
     for i in range(8):
         if draw(st.integers(0, 3)) == 0:
             digits[i] = '*'
@@ -483,9 +486,15 @@ def ilog_bytes(draw, entries, max_entries=24):
     n = draw(st.integers(0, max_entries))
     out = b''
     usable = [e for e in entries if len(e['pattern']) == 8]
+    seen = []
     for _ in range(n):
-        kind = draw(st.integers(0, 9))
-        if kind <= 4 and usable:
+        kind = draw(st.integers(0, 11))
+        if kind >= 10 and seen:
+            # an entry that occurred earlier in this log, again: as it was, or with the other value of the reported flag
+            pte = draw(st.sampled_from(seen))
+            if draw(st.integers(0, 3)) != 0:
+                pte ^= 0x00040000
+        elif kind <= 4 and usable:
             e = draw(st.sampled_from(usable))
             pte = fill_pattern(draw, e['pattern'])
             if draw(st.integers(0, 2)) == 0:
@@ -505,6 +514,7 @@ def ilog_bytes(draw, entries, max_entries=24):
         if kind == 5 and draw(st.booleans()):
             ts, seq = 0, 0
         out += struct.pack('>HHI', ts, seq, pte)
+        seen.append(pte)
     out += draw(st.binary(max_size=7))
     return out
 
